@@ -48,7 +48,8 @@ func c15(w *World) {
 		doneSeen = true
 		simrt.Yield("watch'")
 	})
-	if w.W.Chance(1, 3) {
+	falseHandler := w.W.Chance(1, 3)
+	if falseHandler {
 		// an application handler that returns false (it is the last of its chain: harmless)
 		s.OnChangeState(utils.EventLogon, func() bool { return false })
 		s.OnChangeState(utils.EventRequest, func() bool { return false })
@@ -274,6 +275,12 @@ func c15(w *World) {
 			}
 			w.Probe("stop_answer_path")
 		}
+	}
+	if falseHandler && ending != "stop" && len(w.Viol) == 0 && !sc.P.EOF {
+		// the application registers one more event handler after the exchange: a local call like any other
+		// (a dispatch that ended early on a handler's false must not have kept the pool locked)
+		call("OnChangeState", func() error { s.OnChangeState(utils.EventDisconnect, func() bool { return true }); return nil })
+		w.Probe("registration_after_false_returning_handler")
 	}
 	sc.Teardown()
 }
